@@ -515,8 +515,9 @@ var (
 	fixedIDs    = []string{"a0", "a1", "a2", "a3"}
 )
 
-// genOp draws one operation. doorMode is model | server | client | mixed.
-func genOp(rng *vk.Rand, doorMode string, targets []string, allowUpdateNormalOn bool) op {
+// genOp draws one operation. doorMode is model | server | client | mixed. emptyID: the sequential random stream also
+// switches to the empty id; the concurrent plans do not (their draw sequence is left as the recorded races need it).
+func genOp(rng *vk.Rand, doorMode string, targets []string, allowUpdateNormalOn, emptyID bool) op {
 	kinds := []string{"create", "add", "add", "update", "update", "update", "delete", "delete", "delete", "set-active", "change-active", "change-active", "clear-active"}
 	o := op{Kind: kinds[rng.Intn(len(kinds))]}
 	o.Target = targets[rng.Intn(len(targets))]
@@ -537,6 +538,12 @@ func genOp(rng *vk.Rand, doorMode string, targets []string, allowUpdateNormalOn 
 		o.AM = rng.Bool()
 	case "clear-active":
 		o.Target = ""
+	case "set-active", "change-active":
+		// the empty id names no mode (a generated id is never empty): switching to it is documented to fail like any
+		// other unknown id, also while the model still shows its initial dummy mode, whose id is empty too
+		if emptyID && rng.Chance(1, 8) {
+			o.Target = "empty"
+		}
 	}
 	door := doorMode
 	if doorMode == "mixed" {
@@ -620,7 +627,7 @@ func randomSequences(r *vk.Run) {
 					asubs = append(asubs, subscribeActive(c.w, via, via == "model" && rng.Bool()))
 				}
 			}
-			o := genOp(rng, doorMode, randTargets, true)
+			o := genOp(rng, doorMode, randTargets, true, true)
 			if placeholder != "" && k < 3 && rng.Bool() {
 				// address the placeholder's id while it is (probably) still the active mode
 				kinds := []string{"set-active", "change-active", "delete", "update"}
